@@ -27,6 +27,7 @@ import (
 	"strings"
 	"sync"
 	"sync/atomic"
+	"time"
 
 	sentinel "github.com/alibaba/sentinel-golang/api"
 	"github.com/alibaba/sentinel-golang/core/base"
@@ -60,10 +61,56 @@ var (
 	res = result{Counts: map[string]int{}}
 )
 
+// progress: operations completed so far; running: goroutines (by name) that have not finished.
+// stallWatch turns a run in which nothing completes any more (a deadlock of the code under test)
+// into a reported failure instead of a hung process.
+var (
+	progress int64
+	running  = map[string]int{}
+)
+
+func tick() { atomic.AddInt64(&progress, 1) }
+
 func count(k string, n int) {
+	tick()
 	mu.Lock()
 	res.Counts[k] += n
 	mu.Unlock()
+}
+
+const stallLimit = 20 // seconds without a single completed operation
+
+func stallWatch(done <-chan struct{}) {
+	last, idle := int64(-1), 0
+	for {
+		select {
+		case <-done:
+			return
+		case <-time.After(time.Second):
+		}
+		cur := atomic.LoadInt64(&progress)
+		if cur != last {
+			last, idle = cur, 0
+			continue
+		}
+		idle++
+		if idle < stallLimit {
+			continue
+		}
+		mu.Lock()
+		names := []string{}
+		for n, c := range running {
+			if c > 0 {
+				names = append(names, fmt.Sprintf("%s x%d", n, c))
+			}
+		}
+		sort.Strings(names)
+		mu.Unlock()
+		fail("api", "no-deadlock", "stress-stalled-no-operation-completes", fmt.Sprintf("no public-API call completed for %d s (%d operations before); goroutines that never finished: %s", stallLimit, cur, strings.Join(names, ", ")))
+		mu.Lock()
+		finishLocked()
+		os.Exit(0)
+	}
 }
 
 func fail(module, clause, sig, detail string) {
@@ -241,12 +288,17 @@ func hotspotModule() *module {
 }
 
 func guard(name string, f func()) {
+	mu.Lock()
+	running[name]++
+	mu.Unlock()
 	defer func() {
-		if r := recover(); r != nil {
-			mu.Lock()
+		r := recover()
+		mu.Lock()
+		running[name]--
+		if r != nil {
 			res.Panics = append(res.Panics, fmt.Sprintf("%s: %v", name, r))
-			mu.Unlock()
 		}
+		mu.Unlock()
 	}()
 	f()
 }
@@ -361,6 +413,7 @@ func stressModule(m *module, iters int, wg *sync.WaitGroup, start chan struct{})
 	spawn("traffic-clr", func() {
 		for i := 0; i < iters; i++ {
 			m.try(clr)
+			tick()
 		}
 		count(m.name+":clr:entries", iters)
 	})
@@ -374,6 +427,7 @@ func stressModule(m *module, iters int, wg *sync.WaitGroup, start chan struct{})
 			if err := m.loadRes(sw, l); err != nil {
 				fail(m.name, "load", m.name+"-load-error", err.Error())
 			}
+			tick()
 			if i%3 == 0 {
 				m.clearRes(clr)
 			} else if i%3 == 1 {
@@ -393,6 +447,7 @@ func stressModule(m *module, iters int, wg *sync.WaitGroup, start chan struct{})
 			if err := m.loadAll(all(l, i%4 < 2)); err != nil {
 				fail(m.name, "load", m.name+"-load-error", err.Error())
 			}
+			tick()
 			runtime.Gosched()
 		}
 		count(m.name+":loads-all", iters/4)
@@ -410,6 +465,7 @@ func stressModule(m *module, iters int, wg *sync.WaitGroup, start chan struct{})
 			if !(strings.Contains(j, "a1,a2") || strings.Contains(j, "b1,b2")) || !strings.Contains(j, "f") || !strings.Contains(j, "p") {
 				fail(m.name, "getter-old-or-new", m.name+"-getall-neither-old-nor-new", fmt.Sprintf("GetRules ids = %v", allIds))
 			}
+			tick()
 			got2 := m.rulesOf(fb)
 			if !eq(got2, []string{"f"}) {
 				fail(m.name, "independence", m.name+"-getter-of-other-resource-changed", fmt.Sprintf("GetRulesOfResource(%s) = %v", fb, got2))
@@ -651,13 +707,21 @@ func main() {
 		}
 	}
 	close(start)
+	allDone := make(chan struct{})
+	go stallWatch(allDone)
 	wg.Wait()
+	close(allDone)
 	// quiescence: every entry of the run has exited
 	gaugesZero("c15-", "after the stress run (traffic, churn and getters finished)")
 	finish()
 }
 
 func finish() {
+	mu.Lock()
+	finishLocked()
+}
+
+func finishLocked() {
 	if res.Failures == nil {
 		res.Failures = []failure{}
 	}
